@@ -130,6 +130,80 @@ class CostVec:
         return self
 
 
+def evaluating_replay(t, A, name, method, active, decoupled):
+    """Replay of a (candidate) counter-model on the REAL evaluating(): the abstract designs of the model are relabelled with
+    identifiers whose CPython set order is not the sorted order, the design space / problem / model are recording stubs, the
+    discrete optimisers (their own bodies are verified in C07) are replaced by 'first q rows'.  The replay judges the real
+    method against the property itself: only active designs, each at most once, counted, S/P/U untouched, and every
+    observation handed to the model paired with the design whose row was evaluated."""
+    from pyvc import finite
+
+    def builder(m):
+        n = (t.finite or {}).get("n") or m.eval(A.N, model_completion=True).as_long()
+        dom = list(range(-1, n + 1))
+        tb = lambda e: z3.is_true(m.eval(finite.expand(e, dom), model_completion=True))
+        mem = lambda arr: [k for k in range(n) if tb(z3.Select(arr, k))]
+        mod = ALGOS[name][:-3].replace("/", ".")
+        L = ["import %s as M" % mod, "import itertools",
+             "IDS = [8, 1, 16, 3, 32, 5]",
+             "NP = 40; f = lambda x: 100.0 * x + 7.0",
+             "pts = np.hstack([np.arange(NP, dtype=float)[:, None] / 64.0, np.arange(NP, dtype=float)[:, None]])",
+             "class DS: pass",
+             "for nm in ('SumVarianceAcquisition', 'MaxDiagonalAcquisition', 'MaxVarianceDecoupledAcquisition', 'ThompsonEntropyDecoupledAcquisition'):\n    if hasattr(M, nm): setattr(M, nm, lambda *a, **k: None)",
+             "def run(S0, P0, U0, batch):",
+             "    ACTIVE = set().union(*[%s])" % ", ".join({"S": "S0", "P": "P0", "U": "U0"}[k] for k in active),
+             "    ds = DS(); ds.points = pts; ds.cardinality = NP",
+             "    log = {'eval': [], 'add': [], 'update': 0}; offered = []",
+             "    class Problem:\n        def evaluate(self, X, idx=None):\n            X = np.asarray(X, dtype=float); log['eval'].append((X.copy(), idx)); return np.stack([f(X[:, 0]), -f(X[:, 0])], axis=1)",
+             "    class Model:\n        output_dim = 2\n        def add_sample(self, I, Y, dim_index=None):\n            log['add'].append((I, np.asarray(Y, dtype=float).copy(), dim_index))\n        def update(self):\n            log['update'] += 1",
+             "    def first_q(acq, q, choices):\n        offered.append(np.asarray(choices, dtype=float).copy()); k = min(q, len(choices)); return choices[:k], np.zeros(k)",
+             "    def first_q_dec(acq, q, choices):\n        offered.append(np.asarray(choices, dtype=float).copy()); k = min(q, len(choices)); return choices[:k], np.zeros(k), np.zeros(k, dtype=int)",
+             "    if hasattr(M, 'optimize_acqf_discrete'): M.optimize_acqf_discrete = first_q",
+             "    if hasattr(M, 'optimize_decoupled_acqf_discrete'): M.optimize_decoupled_acqf_discrete = first_q_dec",
+             "    a = object.__new__(M.%s)" % name,
+             "    a.S = set(S0); a.P = set(P0); a.U = set(U0); a.design_space = ds; a.problem = Problem(); a.model = Model()",
+             "    a.batch_size = batch; a.sample_count = 5; a.round = 1; a.costs = None; a.total_cost = 0.0; a.cost_budget = 1e9",
+             "    for k, v in list(vars(a).items()):",
+             "        pass",
+             "    bad = []",
+             "    try:\n        a.%s()\n    except Exception as ex:\n        bad.append('raised %%s: %%s' %% (type(ex).__name__, ex))" % method,
+             "    if not bad:",
+             "        if len(log['eval']) != 1 or len(log['add']) != 1 or log['update'] != 1: bad.append('calls: %r' % ({k: (len(v) if isinstance(v, list) else v) for k, v in log.items()},))",
+             "    if not bad:",
+             "        X, idx = log['eval'][0]; I, Y, di = log['add'][0]",
+             "        xs = [round(float(v) * 64.0) for v in X[:, 0]]      # designs whose rows were evaluated, in order",
+             "        if any(d not in ACTIVE for d in xs): bad.append('sampled a design that is not active: %r (active %r)' % (xs, sorted(ACTIVE)))",
+             "        if len(set(xs)) != len(xs): bad.append('a design sampled twice: %r' % (xs,))",
+             "        if a.sample_count != 5 + len(xs): bad.append('sample_count %r after %d samples' % (a.sample_count, len(xs)))",
+             "        if (a.S, a.P, a.U) != (S0, P0, U0): bad.append('S/P/U changed')",
+             "        if offered:",
+             "            off = sorted(round(float(v[-1])) for v in offered[0])",
+             "            if off != sorted(ACTIVE): bad.append('candidates offered %r, active %r' % (off, sorted(ACTIVE)))",
+             "            got = [round(float(r[0]) * 64.0) for r in np.asarray(I, dtype=float)]",
+             "        else:",
+             "            if sorted(xs) != sorted(ACTIVE): bad.append('not every active design sampled once: %r vs %r' % (xs, sorted(ACTIVE)))",
+             "            if X.shape[1] != pts.shape[1] - 1: bad.append('index column not stripped')",
+             "            got = [int(v) for v in list(I)]",
+             "        want = [list(map(float, (f(d / 64.0), -f(d / 64.0)))) for d in got]",
+             "        if len(got) != len(Y) or not same(Y, want): bad.append('observations handed to the model are not those of the designs they are paired with: designs %r, rows evaluated %r' % (got, xs))",
+             "    return bad",
+             "# the solver's candidate first, then every configuration of up to 3 relabelled designs (S non-empty, S and P disjoint, U inside P)",
+             "cands = [({IDS[k] for k in %r}, {IDS[k] for k in %r}, {IDS[k] for k in %r})]" % (mem(A.S0), mem(A.P0), mem(A.U0)),
+             "for lab in itertools.product('SPUN', repeat=3):",
+             "    S0 = {IDS[k] for k in range(3) if lab[k] == 'S'}; P0 = {IDS[k] for k in range(3) if lab[k] in 'PU'}; U0 = {IDS[k] for k in range(3) if lab[k] == 'U'}",
+             "    if S0: cands.append((S0, P0, U0))",
+             "for (S0, P0, U0) in cands:",
+             "    for batch in (2, 1, 5):",
+             "        if not S0: continue",
+             "        bad = run(S0, P0, U0, batch)",
+             "        if bad:",
+             "            print('INPUT S=%r P=%r U=%r batch=%d' % (sorted(S0), sorted(P0), sorted(U0), batch)); print('REAL', bad)",
+             "            print('REPLAY-CONFIRMED obligation=%s (real evaluating() deviates from the property)' % OBLIGATION)\n            raise SystemExit(1)",
+             "print('REPLAY-NOT-REPRODUCED obligation=%s' % OBLIGATION)\nraise SystemExit(4)"]
+        return L
+    return builder
+
+
 def _evaluating(name, method, active, decoupled=False):
     @task("C06", "%s.%s" % (name, method))
     def _t(t):
@@ -198,7 +272,9 @@ def _evaluating(name, method, active, decoupled=False):
                 cs.append(z3.BoolVal(ei is not None and len(a0) > 2 and a0[2] is ei))
                 cs.append(V.R(o.fields["total_cost"]) == A.cost0 + COST(ei.term) if ei is not None else False)
             return z3.And(*cs)
+        t.finite = {"N": A.N, "replay": evaluating_replay(t, A, name, method, active, decoupled)}
         t.prove_paths("samples_only_active_designs_once_each_counted_and_handed_to_the_model_with_their_observations", paths, goal)
+        t.finite = None
         t.implicit()
     return _t
 
